@@ -23,7 +23,7 @@ def plan(tier):
         fams += [(3, 2, 'FULL', 1), (2, 3, 'FULL_NO3', 2), (3, 1, 'S4', 1), (1, 3, 'FULL', 2)]
     for n, k, a, split in fams:
         for tk in space.tasks(n, k, ALPHAS[a], split):
-            tk.update(alpha=a, pol='all' if (n + k <= 4 and tier == 'thorough') or n + k <= 3 else 'core')
+            tk.update(alpha=a, pol='all' if (n + k <= 4 and tier == 'thorough') or n + k <= 3 else ('last2' if k >= 3 else 'core'))
             t.append(tk)
     return t
 
@@ -198,7 +198,10 @@ def check_circuit(n, gates, acc, pol):
     from vmc.props import c03
 
     k = len(gates)
-    pols = space.output_policies(n, k, 2, gates=gates) if pol == 'all' else c03.core_policies(n, k, gates)
+    if pol == 'last2':
+        pols = [(n + k - 1,), (n + k - 1, 0), (n + k - 2, n + k - 1)]
+    else:
+        pols = space.output_policies(n, k, 2, gates=gates) if pol == 'all' else c03.core_policies(n, k, gates)
     labs = space.labels(n, k)
     net0 = space.spec_net(n, gates)
     ref = net0.tables()
